@@ -293,7 +293,16 @@ fn socket_seams(id: &str) -> Vec<(SockCampaign, u32, u32)> {
         "C07" => ["unix-buffered-faults", "udp-buffered-faults"],
         _ => ["unix-buffered-greedy", "udp-buffered-greedy"],
     };
-    vec![
+    let mut extra = Vec::new();
+    if matches!(id, "C05" | "C06") {
+        let n: &'static str = if id == "C05" { "unix-buffered-framing-faults" } else { "unix-buffered-conservation-faults" };
+        extra.push((
+            SockCampaign { name: n, focus: SRule::Trace(rule), gen: sgen(Some(Transport::Unix), Some(true), true, 0.0, 30) },
+            2_000u32,
+            30_000u32,
+        ));
+    }
+    let mut v = vec![
         (
             SockCampaign { name: names[0], focus: SRule::Trace(rule), gen: sgen(Some(Transport::Unix), Some(true), faults, 0.0, 30) },
             if faults { 1_500 } else { 4_000 },
@@ -304,7 +313,9 @@ fn socket_seams(id: &str) -> Vec<(SockCampaign, u32, u32)> {
             if faults { 1_000 } else { 4_000 },
             30_000,
         ),
-    ]
+    ];
+    v.extend(extra);
+    v
 }
 
 fn sock_campaigns(id: &str) -> Vec<(SockCampaign, u32, u32)> {
@@ -312,6 +323,7 @@ fn sock_campaigns(id: &str) -> Vec<(SockCampaign, u32, u32)> {
         "C13" => vec![
             (SockCampaign { name: "sock-wire-unbuffered", focus: SRule::Wire, gen: sgen(None, Some(false), true, 0.0, 12) }, 6_000, 150_000),
             (SockCampaign { name: "sock-wire-buffered", focus: SRule::Wire, gen: sgen(None, Some(true), false, 0.0, 30) }, 5_000, 150_000),
+            (SockCampaign { name: "sock-wire-buffered-unix-faults", focus: SRule::Wire, gen: sgen(Some(Transport::Unix), Some(true), true, 0.0, 30) }, 3_000, 80_000),
         ],
         "C14" => vec![
             (SockCampaign { name: "sock-telemetry", focus: SRule::Telemetry, gen: sgen(None, None, true, 0.3, 25) }, 8_000, 200_000),
@@ -450,7 +462,9 @@ fn run_queue(id: &'static str, tier: Tier, seed: u64, ctx: &Ctx, sh: u32) -> Evi
         }
         "C10" => {
             let c = ConcCampaign { name: "queue-isolation-concurrent", focus: QRule::Isolation };
-            driver::run_random(&c, &ev, ctx, scale(tier.pick(100, 1_500)), 4);
+            if driver::run_random(&c, &ev, ctx, scale(tier.pick(100, 1_500)), 4) {
+                driver::run_random(&crate::queue::concurrent::LastSlotRace, &ev, ctx, scale(tier.pick(60, 1_000)), 4);
+            }
         }
         "C11" => {
             let c = QueueCampaign::new("queue-panics-enumerated", QRule::Panics, QGenKind::Endings);
@@ -461,7 +475,7 @@ fn run_queue(id: &'static str, tier: Tier, seed: u64, ctx: &Ctx, sh: u32) -> Evi
         }
         "C15" => {
             let c = ConcCampaign { name: "queue-counters-sampler", focus: QRule::Counters };
-            driver::run_random(&c, &ev, ctx, scale(tier.pick(60, 1_000)), 2);
+            driver::run_random(&c, &ev, ctx, scale(tier.pick(150, 2_000)), 2);
         }
         "C16" => {
             let c = QueueCampaign::new("queue-handler-enumerated", QRule::Handler, QGenKind::Endings);
@@ -483,12 +497,18 @@ fn writer_campaigns(id: &str) -> Vec<(WriterCampaign, u32, u32)> {
             (WriterCampaign::new("mlw-framing-tinycap", Rule::Framing, Seam::MlwTiny, gen_default(30, false)), 40_000, 500_000),
             (WriterCampaign::new("spy-framing", Rule::Framing, Seam::Spy, gen_default(40, false)), 20_000, 300_000),
             (WriterCampaign::new("spy-default-framing", Rule::Framing, Seam::SpyDefault, gen_default(12, false)), 4_000, 60_000),
+            // failures of the underlying writer must not break the framing of later writes either
+            (WriterCampaign::new("mlw-framing-faults", Rule::Framing, Seam::Mlw, gen_default(30, true)), 80_000, 1_000_000),
+            (WriterCampaign::new("mlw-framing-faults-tinycap", Rule::Framing, Seam::MlwTiny, gen_default(20, true)), 20_000, 200_000),
         ],
         "C06" => vec![
             (WriterCampaign::new("mlw-conservation", Rule::Conservation, Seam::Mlw, gen_default(40, false)), 150_000, 2_000_000),
             (WriterCampaign::new("mlw-conservation-tinycap", Rule::Conservation, Seam::MlwTiny, gen_default(30, false)), 20_000, 400_000),
             (WriterCampaign::new("spy-conservation", Rule::Conservation, Seam::Spy, gen_default(40, false)), 12_000, 200_000),
             (WriterCampaign::new("client-spy-conservation", Rule::Conservation, Seam::ClientSpy, gen_default(40, false)), 20_000, 300_000),
+            // conservation across failed writes: a flush may only report Ok once everything is out
+            (WriterCampaign::new("mlw-conservation-faults", Rule::Conservation, Seam::Mlw, gen_default(30, true)), 80_000, 1_000_000),
+            (WriterCampaign::new("spy-bounded-conservation-faults", Rule::Conservation, Seam::SpyBounded, gen_default(30, true)), 10_000, 150_000),
             (WriterCampaign::new("queue-client-spy-conservation", Rule::Conservation, Seam::QueueClientSpy, gen_default(25, false)), 4_000, 80_000),
         ],
         "C07" => vec![
@@ -581,6 +601,7 @@ pub fn replay(id: &'static str, campaign: &str, case: &serde_json::Value, tier: 
     try_camp!(ConcCampaign { name: "queue-deliver-concurrent", focus: QRule::Deliver });
     try_camp!(ConcCampaign { name: "queue-isolation-concurrent", focus: QRule::Isolation });
     try_camp!(ConcCampaign { name: "queue-counters-sampler", focus: QRule::Counters });
+    try_camp!(crate::queue::concurrent::LastSlotRace);
     for pid in ["C05", "C06", "C07", "C19"] {
         for (c, _, _) in socket_seams(pid) {
             try_camp!(c);
